@@ -4,7 +4,8 @@ the appended byte strings in which every append is contiguous and each producer 
 appends keep their order; nothing is lost or duplicated".
 
 To make the decision deterministic the harness appends *tagged* strings: the first byte of a
-non-empty append identifies the producer thread (`0xA0 + tid`, tid < 8).  `parse` then reads the
+non-empty append identifies the producer thread (`0xA0 + tid`, tid < 8; tid 8 = the sink callback's own
+nested appends, an ordinary pseudo-producer).  `parse` then reads the
 stream left to right: the first byte names the thread, the next pending (non-empty) append of
 that thread must be a prefix of what is left.  `accept` additionally demands that nothing
 pending is left over.  `parse_sound`: an accepted stream IS the concatenation of the order found.
@@ -12,7 +13,7 @@ pending is left over.  `parse_sound`: an accepted stream IS the concatenation of
 namespace Tbox.C10.Spec
 
 def tidOfByte (b : UInt8) : Option Nat :=
-  if 0xA0 ≤ b.toNat ∧ b.toNat < 0xA8 then some (b.toNat - 0xA0) else none
+  if 0xA0 ≤ b.toNat ∧ b.toNat < 0xA9 then some (b.toNat - 0xA0) else none
 
 /-- zero-length appends leave no trace in the stream -/
 def dropEmpties : List (List UInt8) → List (List UInt8)
@@ -40,10 +41,10 @@ def parse : Nat → Prog → List UInt8 → Option (List (Nat × List UInt8) × 
                 | none => none
               else none
 
-/-- the whole decision: the stream parses and no thread (0..7) has a non-empty append pending -/
+/-- the whole decision: the stream parses and no thread (0..8) has a non-empty append pending -/
 def accept (g : Prog) (stream : List UInt8) : Bool :=
   match parse (stream.length + 1) g stream with
-  | some (_, g') => (List.range 8).all fun p => (dropEmpties (g' p)).isEmpty
+  | some (_, g') => (List.range 9).all fun p => (dropEmpties (g' p)).isEmpty
   | none => false
 
 theorem isPrefixOf_take_drop {α} [BEq α] [LawfulBEq α] {d l : List α} (h : d.isPrefixOf l = true) :
